@@ -463,6 +463,42 @@ def rule_bl(ctx):
         seen[under_drop] = (rounding(r.value), mentions_division(r.value), r)
     ok_len = (True in seen and seen[True][0] == 'floor' and seen[True][1]
               and False in seen and seen[False][0] == 'ceil' and seen[False][1])
+    if not ok_len:
+        # path view: evaluate __len__ once with drop_last true and once with it false
+        sym = {}
+        for val in (True, False):
+            def decide(test, val=val):
+                t, neg = A.strip_not(test)
+                if A.is_self_attr(t, 'drop_last'):
+                    return val != neg
+                return None
+            stmts, ret = flow.run_under(fn, decide)
+            if stmts is None or ret is None or ret.value is None:
+                sym = None
+                break
+            e = flow.symbolic_value(stmts[:-1], ret.value)
+            div = any(isinstance(n, ast.BinOp) and isinstance(n.op, (ast.Div, ast.FloorDiv))
+                      and 'len(self.input_dataset)' in A.src(n.left) and A.is_self_attr(n.right, 'batch_size') for n in ast.walk(e))
+
+            def rnd(e):
+                if isinstance(e, ast.BinOp) and isinstance(e.op, ast.FloorDiv):
+                    return 'floor'
+                if isinstance(e, ast.UnaryOp) and isinstance(e.op, ast.USub) and isinstance(e.operand, ast.BinOp) \
+                        and isinstance(e.operand.op, ast.FloorDiv):
+                    return 'ceil'
+                if isinstance(e, ast.Call):
+                    d = A.dotted(e.func) or ''
+                    if d.endswith('ceil'):
+                        return 'ceil'
+                    if d.endswith('floor'):
+                        return 'floor'
+                    if d == 'int' and e.args:
+                        return rnd(e.args[0]) or 'floor'
+                return None
+            sym[val] = (rnd(e), div)
+        if sym is not None:
+            seen = {k: (v[0], v[1], fn) for k, v in sym.items()}
+            ok_len = seen[True] [:2] == ('floor', True) and seen[False][:2] == ('ceil', True)
     rep.ob('BL', K.key(cls, '__len__', 'floor-if-drop_last-else-ceil(len/batch_size)'), ok_len, fn,
            '' if ok_len else 'len must be floor(len(input)/batch_size) under drop_last and ceil otherwise; found %s'
            % {k: (v[0], v[1]) for k, v in seen.items()})
